@@ -955,9 +955,15 @@ class Parser:
         if self.accept('id'):
             return self.create_node(IdNode, t)
         if self.accept('number'):
-            return self.create_node(NumberNode, t)
+            try:
+                return self.create_node(NumberNode, t)
+            except ValueError:
+                raise ParseException('Invalid integer literal (too many digits).', self.getline(), t.lineno, t.colno)
         if self.accept_any(ALL_STRINGS):
-            return self.create_node(StringNode, t)
+            try:
+                return self.create_node(StringNode, t)
+            except UnicodeDecodeError:
+                raise ParseException('Invalid escape sequence in string.', self.getline(), t.lineno, t.colno)
         return EmptyNode(self.current.lineno, self.current.colno, self.current.filename)
 
     def key_values(self) -> ArgumentNode:
